@@ -240,11 +240,29 @@ pub trait Translator {
         for (address, block_translation_result) in translation_results {
             // Get the exit index for the last/tail vertex in this block
             let (_, block_exit) = block_indices[&address];
-            // For every successor in the block translation result (this is an
-            // (address, condition) tuple)
+            // Successors which share a target become one edge, taken under
+            // either condition (je +0 has its target and its fall-through at
+            // the same address). The graph holds one edge per (head, tail).
+            let mut successors: Vec<(u64, Option<Expression>)> = Vec::new();
             for (successor_address, successor_condition) in
                 block_translation_result.successors().iter()
             {
+                match successors
+                    .iter_mut()
+                    .find(|successor| successor.0 == *successor_address)
+                {
+                    Some(successor) => {
+                        successor.1 = match (successor.1.take(), successor_condition) {
+                            (Some(lhs), Some(rhs)) => Some(Expression::or(lhs, rhs.clone())?),
+                            _ => None,
+                        }
+                    }
+                    None => successors.push((*successor_address, successor_condition.clone())),
+                }
+            }
+            // For every successor in the block translation result (this is an
+            // (address, condition) tuple)
+            for (successor_address, successor_condition) in successors.iter() {
                 // get the entry index for the first/head block in the successor
                 let (block_entry, _) = block_indices[successor_address];
                 // check for duplicate edges
